@@ -28,7 +28,7 @@ class C36(Check):
                            "ioflo.aio.tcp Server/Incomer/Client"],
                   "stub": ["socket module", "send-side packets (pre-packed bytes)"]}
     assumptions = ["no connection loss is injected while packets are queued (C25/C27 cover it): the property speaks of a connected peer; the only close is the orderly one of the epilogue, after the sender's last byte has left"]
-    required_probes = ["partial-send", "both-directions", "two-clients", "completed", "sender-closed-after-last-packet", "broadcast", "same-packet-queued-again", "peer-left"]
+    required_probes = ["partial-send", "both-directions", "two-clients", "completed", "sender-closed-after-last-packet", "broadcast", "same-packet-queued-again", "peer-left", "empty-packet"]
     quick_runs = 8000
     thorough_runs = 400000
     shrink_fields = ["schedule", "ops"]
@@ -55,6 +55,12 @@ class C36(Check):
                 sched.append(["q"])
             else:
                 sched.append(["d", s.randrange(2 * nc), s.choice([1, 2, 5, 1 << 20])])
+        # a zero-length packet somewhere in the queue (decided by a side generator so that all other plans stay as they were):
+        # it puts nothing on the wire and must not hold up what is queued behind it
+        import random as _r
+        sg = _r.Random(hashlib.sha256(repr(g.getstate()).encode()).hexdigest())
+        if sg.random() < 0.2:
+            ops.insert(sg.randrange(len(ops)), [sg.choice(["c2s", "s2c"]), sg.randrange(nc), 0])
         # epilogue: one more packet, then the sender's end of the connection is closed before the receiver is serviced again,
         # so that the receiver reads the last bytes and the end of stream in one service pass (received bytes must still be delivered)
         return {"nclients": nc, "cap": g.choice([1, 3, 8, 64]), "ops": ops, "schedule": sched,
@@ -141,6 +147,9 @@ class C36(Check):
                     if k in gone and kind != "bcast":
                         return          # nothing more is exchanged with a peer that left
                     payload = (b"<%d|" % serial[0] + bytes((serial[0] * 31 + j) % 251 for j in range(n)))[:max(n, 4)]
+                    if n == 0:
+                        payload = b""
+                        out.probe("empty-packet")
                     serial[0] += 1
                     pkt = FakePkt(bytearray(payload))       # real packets keep their packed form in a bytearray
                     times = 2 if len(op) > 3 else 1         # "again": the same packet object queued twice for the same peer
